@@ -337,7 +337,13 @@ impl<A: AApi> Sut for ASut<A> {
             "full" | "rfull" => Some((m.len() >= bound).to_string()),
             "empty" | "rempty" => Some(m.is_empty().to_string()),
             "view" | "rview" => Some(list(&m)),
-            "fill" => Some((bound - m.len()).to_string()),
+            "fill" => {
+                let mut n = 0usize;
+                while n < bound - m.len() && (n as i128) < op.args[1] && !m.contains_key(&Self::key_of(op.args[0] + n as i128)) {
+                    n += 1;
+                }
+                Some(n.to_string())
+            }
             _ => None,
         };
         let prop = if op.name == "ext" { "C08" } else { "C03" };
